@@ -14,14 +14,18 @@ def _get_enum_docs(enum: Union[model.Enum, model.EnumItem]) -> List[str]:
     return lines_to_doc_comments(doc)
 
 
+def _proposed_gate(type_def: Union[model.Enum, model.EnumItem]) -> List[str]:
+    return ['#[cfg(feature = "proposed")]'] if type_def.proposed else []
+
+
 def generate_serde(enum: model.Enum) -> List[str]:
-    ser = [
+    ser = _proposed_gate(enum) + [
         f"impl Serialize for {enum.name} {{",
         "fn serialize<S>(&self, serializer: S) -> Result<S::Ok, S::Error> where S: serde::Serializer,{",
         "match self {",
     ]
 
-    de = [
+    de = _proposed_gate(enum) + [
         f"impl<'de> Deserialize<'de> for {enum.name} {{",
         f"fn deserialize<D>(deserializer: D) -> Result<{enum.name}, D::Error> where D: serde::Deserializer<'de>,"
         "{",
@@ -30,8 +34,10 @@ def generate_serde(enum: model.Enum) -> List[str]:
     ]
     for item in enum.values:
         full_name = f"{enum.name}::{to_upper_camel_case(item.name)}"
-        ser += [f"{full_name} => serializer.serialize_i32({item.value}),"]
-        de += [f"{item.value} => Ok({full_name}),"]
+        ser += _proposed_gate(item) + [
+            f"{full_name} => serializer.serialize_i32({item.value}),"
+        ]
+        de += _proposed_gate(item) + [f"{item.value} => Ok({full_name}),"]
     ser += [
         "}",  # match
         "}",  # fn
